@@ -49,6 +49,92 @@ def source_copy_flag(repo):
     return None, "copy= is not a literal"
 
 
+def gen_redeclare_library(rng):
+    """replaceable model + `redeclare model X = Y` (in a component modification or in an extends clause)
+    where Y has modified class-typed components; returns text and sequences that flatten the redeclaring
+    model BEFORE Y and the users of Y (tree.py:363-384)."""
+    a, b, c = rng.randint(2, 9), rng.randint(2, 9), rng.randint(2, 9)
+    deep = rng.random() < 0.5
+    lines = ["model Leaf", "  parameter Real area = 1.0;", "  Real level;", "equation",
+             "  der(level) = 1.0 / area;", "end Leaf;",
+             "model Generic", "  Real y;", "equation", "  y = 0.0;", "end Generic;"]
+    if deep:
+        lines += ["model Mid", "  Leaf leaf(area = %d.5);" % c, "  Real z;", "equation", "  z = leaf.level;", "end Mid;"]
+    lines += ["model Plant", "  Leaf tank(area = %d.5);" % a]
+    if deep:
+        lines += ["  Mid mid(leaf.area = %d.25);" % b]
+    lines += ["  Real y;", "equation", "  y = tank.level%s;" % (" + mid.z" if deep else ""), "end Plant;",
+              "model Stage", "  replaceable model Process = Generic;", "  Process p;", "end Stage;"]
+    style = rng.choice(["component", "extends", "both"])
+    if style in ("component", "both"):
+        lines += ["model System", "  Stage stage(redeclare model Process = Plant);", "end System;"]
+    if style in ("extends", "both"):
+        lines += ["model SystemE", "  extends Stage(redeclare model Process = Plant);", "end SystemE;"]
+    lines += ["model Pair", "  Plant a;", "  Plant b(tank.area = %d.0);" % b, "end Pair;"]
+    red = [m for m in ("System", "SystemE") if ("model " + m) in "\n".join(lines)]
+    after = ["Plant", "Pair"] + (["Mid"] if deep else [])
+    seqs = []
+    for r in red:
+        for x in after:
+            seqs.append([["flatten", [r]], ["flatten", [x]]])
+        seqs.append([["flatten", [r]], ["flatten", [r]], ["flatten", [rng.choice(after)]]])
+        seqs.append([["flatten", [rng.choice(after)]], ["flatten", [r]], ["flatten", [rng.choice(after)]]])
+    rng.shuffle(seqs)
+    return "\n".join(lines) + "\n", seqs
+
+
+def gen_import_library(rng):
+    """a package with several unqualified imports whose classes are used by simple name in a nested
+    model: the lookup climbs to the ORIGINAL package and writes its import memo (ast.py:662-685)"""
+    n = rng.randint(2, 3)
+    lines = []
+    for i in range(n):
+        lines += ["package I%d" % i, "  model T%d" % i, "    Real x%d;" % i, "  equation", "    x%d = %d.0;" % (i, i + 1),
+                  "  end T%d;" % i, "end I%d;" % i]
+    order = list(range(n))
+    rng.shuffle(order)
+    lines += ["package U"] + ["  import I%d.*;" % i for i in order] + ["  model M"]
+    used = [i for i in range(n) if rng.random() < 0.8] or [0]
+    lines += ["    T%d t%d;" % (i, i) for i in used] + ["  end M;", "end U;"]
+    seqs = [[["flatten", ["U", "M"]], ["flatten", ["U", "M"]]],
+            [["flatten", ["U", "M"]], ["flatten", ["I%d" % used[0], "T%d" % used[0]]], ["flatten", ["U", "M"]]]]
+    return "\n".join(lines) + "\n", seqs
+
+
+SMALL_MODEL = "model %s\n  parameter Real a = %d.0;\n  Real x(start = 1.0);\nequation\n  der(x) = -x / a;\nend %s;\n"
+
+
+def gen_casadi_cli(rng, i):
+    """-t casadi: the model folder is inferred from a file named after the model (compiler.py:286-298);
+    models without an own file, or with two files, are usage errors — alone and together, in any order"""
+    own, nofile, ambiguous = "Own%d" % i, "NoFile%d" % i, "Twice%d" % i
+    files = {own + ".mo": SMALL_MODEL % (own, 2, own) + SMALL_MODEL % (nofile, 3, nofile)}
+    models = [own, nofile]
+    if rng.random() < 0.5:
+        files["s1/%s.mo" % ambiguous] = SMALL_MODEL % (ambiguous, 4, ambiguous)
+        files["s2/%s.mo" % ambiguous] = SMALL_MODEL % (ambiguous, 4, ambiguous)
+        models.append(ambiguous)
+    missing = "Missing%d" % i
+    if rng.random() < 0.3:
+        models.append(missing)
+    rng.shuffle(models)
+    pick = models[:rng.randint(2, 3)]
+    if own not in pick:
+        pick.insert(rng.randrange(len(pick) + 1), own)
+    if rng.random() < 0.3:
+        pick.append(pick[0])
+    return {"kind": "cli", "files": files, "text": "".join(files.values()), "models": pick, "target": "casadi"}
+
+
+def tag_of(text, why_kind):
+    """narrow tag of a failing sequence (for findings/known.d/C05.json)"""
+    import re
+    for m in re.finditer(r"(?:package|model|class)\s+\w+\s*((?:\s*import\s+[\w.]+\.\*\s*;)+)", text):
+        if m.group(1).count("import") >= 2 and why_kind == "ClassNotFoundError-after-ok":
+            return "import-memo-last-package"
+    return "sequence-differs"
+
+
 BAD_MODEL = "model Bad%d\n  %s c(nonexistent%d = 1.0);\nend Bad%d;\n"
 
 
@@ -56,13 +142,14 @@ def judge_lib(case, out):
     """-> list of (why, failing sequence) — every request of every sequence equals the fresh-parse result"""
     bad = []
     if "got" not in out:
-        return [("requests could not be run: %s" % json.dumps(out)[:200], None)]
+        return [("requests could not be run: %s" % json.dumps(out)[:200], None, "harness")]
     for seq, got in zip(out["seqs"], out["got"]):
         for i, (r, g) in enumerate(zip(seq, got)):
             w = out["want"][r[0] + ":" + ".".join(r[1])]
             if g[:2] != w[:2]:
+                kind = "ClassNotFoundError-after-ok" if (g[:2] == ["exc", "ClassNotFoundError"] and w[0] == "ok") else "differs"
                 bad.append(("request %d (%s %s) of sequence %s gives %s; on a fresh parse it gives %s"
-                            % (i, r[0], ".".join(r[1]), [[x[0], ".".join(x[1])] for x in seq], g[:2], w[:2]), seq))
+                            % (i, r[0], ".".join(r[1]), [[x[0], ".".join(x[1])] for x in seq], g[:2], w[:2]), seq, kind))
                 break
     return bad
 
@@ -111,6 +198,18 @@ def run(ctx):
         cases.append({"kind": "lib", "src": "generated", "text": lib["text"], "snap": 3,
                       "auto": {"seed": ctx.rng.randrange(1 << 30), "kinds": kinds, "max_reqs": 10,
                                "n2": ctx.scaled(8, 20), "n3": ctx.scaled(6, 15), "n4": ctx.scaled(0, 8)}})
+    # redeclare libraries: the redeclaring model is flattened before the redeclaration target and its users
+    for i in range(ctx.scaled(4, 30)):
+        text, seqs = gen_redeclare_library(ctx.rng)
+        cases.append({"kind": "lib", "src": "generated-redeclare", "text": text, "snap": 2, "first_seqs": seqs[:ctx.scaled(6, 12)],
+                      "auto": {"seed": ctx.rng.randrange(1 << 30), "kinds": ["flatten"], "max_reqs": 8,
+                               "n2": ctx.scaled(3, 12), "n3": ctx.scaled(2, 8)}})
+    # packages with several unqualified imports
+    for i in range(ctx.scaled(3, 20)):
+        text, seqs = gen_import_library(ctx.rng)
+        cases.append({"kind": "lib", "src": "generated-imports", "text": text, "snap": 2, "first_seqs": seqs,
+                      "auto": {"seed": ctx.rng.randrange(1 << 30), "kinds": ["flatten"], "max_reqs": 6,
+                               "n2": ctx.scaled(2, 8), "n3": ctx.scaled(1, 4)}})
     # every test model
     files = sorted(glob.glob(core.REPO + "/test/models/*.mo"))
     for f in files:
@@ -144,7 +243,11 @@ def run(ctx):
         if ctx.rng.random() < 0.4:
             pick = pick + [pick[0]]
         cases.append({"kind": "cli", "text": text, "models": pick,
-                      "target": "sympy" if ctx.rng.random() < 0.3 else None})
+                      "target": "sympy" if ctx.rng.random() < 0.4 else None})
+    n_cli_casadi = ctx.scaled(4, 16)
+    for i in range(n_cli_casadi):
+        cases.append(gen_casadi_cli(ctx.rng, i))
+    n_cli += n_cli_casadi
     try:
         corpus = json.load(open(core.VERIF + "/corpus/C05/cases.json"))
     except OSError:
@@ -171,17 +274,17 @@ def run(ctx):
         if c["kind"] == "cli":
             if "joint" not in o:
                 core.violation(ctx, "impl-violation", {"case": c, "why": "compiler.main could not be run: %s" % o})
-            elif o["joint"] != sum(o["separate"]):
+            elif not all(isinstance(x, int) for x in [o["joint"]] + o["separate"]) or o["joint"] != sum(o["separate"]):
                 core.violation(ctx, "impl-violation",
                                {"case": c, "why": "compiler.main with -m %s returns %s; the separate runs return %s"
                                 % (" -m ".join(c["models"]), o["joint"], o["separate"])})
             nontrivial.add("cli:" + json.dumps(c["models"]) + str(hash(c["text"])))
             continue
         bad = judge_lib(c, o)
-        for why_bad, seq in bad[:2]:
-            core.violation(ctx, "impl-violation",
-                           {"case": {"kind": "lib", "text": c["text"], "seqs": [seq] if seq else [], "snap": 0,
-                                     "src": c.get("src")}, "why": why_bad})
+        for why_bad, seq, kind in bad[:2]:
+            core.report(ctx, tag_of(c["text"], kind), why_bad,
+                        {"case": {"kind": "lib", "text": c["text"], "seqs": [seq] if seq else [], "snap": 0,
+                                  "src": c.get("src")}, "why": why_bad})
         if "got" in o:
             for seq, got in zip(o["seqs"], o["got"]):
                 n_seq += 1
@@ -218,7 +321,14 @@ def run(ctx):
                        {"correspondence": "Model/C05_frame.v check_case vs snapshot diff of the parsed tree",
                         "case": {"kind": "lib", "text": cases[meta[j][0]]["text"], "seqs": [[meta[j][1]]], "snap": 1},
                         "writes": meta[j][2][:10]}, no_input=True)
-    core.replay_known(ctx, lambda e: None)
+    def still_fails(e):
+        case = (e.get("replay") or {}).get("case")
+        if not case:
+            return None
+        o = core.run_child(ctx, "c05", [case])[0]
+        b = judge_lib(case, o)
+        return bool(b) and tag_of(case["text"], b[0][2]) == e.get("tag")
+    core.replay_known(ctx, still_fails)
 
     ctx.cov["evaluations"] = n_seq + n_cli
     ctx.cov["distinct_nontrivial"] = len(nontrivial)
@@ -256,5 +366,7 @@ def replay(ctx, path):
     else:
         bad = judge_lib(case, out)
         why = bad[0][0] if bad else None
+        if bad and rec.get("tag") == "import-memo-last-package":
+            print("replay: (known finding import-memo-last-package)")
     print("replay:", why or "property holds on this input")
     return 1 if why else 0
